@@ -52,6 +52,11 @@ def run(ctx):
                                       "the LRU evicted meanwhile; a request that waits for the inode while more than 100 other inodes are used then works on an orphaned object and keeps "
                                       "what an aborting holder had changed in place"})
     if ok_go:
+        # directed two-client interleavings decided by the hooks (another client's request in the gap in which a WRITE has given the
+        # file's lock back to help the shrinker, ...): the replies must be those of the sequential model in completion order
+        slines, str_ = seqlib.run_seq(ctx, ["-seqs", "0", "-ops", "1"], name="seqscen")
+        if slines is not None:
+            seqlib.analyse(ctx, slines, str_, ok_drv, "C03")
         configs = ([["-hists", "30", "-clients", "8", "-ops", "200", "-yield", str(y)] for y in (0, 20, 50, 80)] if ctx.tier == "thorough"
                    else [["-hists", "6", "-clients", "6", "-ops", "120", "-yield", "30"], ["-hists", "3", "-clients", "3", "-ops", "150", "-yield", "70"]])
         nh = 0
